@@ -130,6 +130,7 @@ pub fn run(dir: PathBuf, clock: Option<u64>, gate_gc: bool, http: bool, serve: b
     println!("{}", ready);
     let mut nth: u64 = 0;
     let mut follow_src: Option<FollowSrc> = None;
+    let mut nu_front = if std::env::var("XSV_NU").is_ok() { Some(crate::nu::NuFront::new(store.clone())) } else { None };
     let cli_bin: Option<String> = std::env::var("XSV_CLI").ok().filter(|s| !s.is_empty());
     for line in stdin.lock().lines() {
         let line = line.unwrap();
@@ -295,6 +296,13 @@ pub fn run(dir: PathBuf, clock: Option<u64>, gate_gc: bool, http: bool, serve: b
             continue;
         }
         let res = std::panic::catch_unwind(std::panic::AssertUnwindSafe(|| {
+            if let Some(nf) = nu_front.as_mut() {
+                if !req["direct"].as_bool().unwrap_or(false) {
+                    if let Some(v) = nf.exec(op, &req, nth) {
+                        return v;
+                    }
+                }
+            }
             // `direct`: the same operation on the Store API, past the front end (differential check of C13)
             if http && !req["direct"].as_bool().unwrap_or(false) {
                 if op == "bad" {
